@@ -9,6 +9,7 @@
 import Stfs.Proofs.Like
 import Stfs.Model.Trig
 import Stfs.Proofs.Spelling
+import Stfs.Gen.Fingerprints
 namespace Stfs.C12
 open Stfs
 
@@ -151,5 +152,15 @@ theorem moveItems_names (from_ to : Name) (rows : List Row) (env : EnvRecs) :
   simp [moveItems, movedName, Row.toHdr]
 
 example : movedName (n!"/a/b") (n!"/x") (n!"/a/b/c/d") = (n!"/x/c/d") := by decide
+
+-- MIRRORS-BEGIN (maintained by bin/update-mirrors)
+/-- The parts of the model this file's theorems are about were written by hand against these
+    versions of the functions they mirror (fingerprint of each function's comment-free source,
+    regenerated on every run).  When one of them changes, this obligation fails: the change has
+    to be confirmed harmless by the correspondence, or shows up as its failing input. -/
+theorem model_mirrors_source :
+    [(n!"persisters.MetadataPersister.GetHeaderChildren"), (n!"operations.Operations.Move"), (n!"operations.Operations.Delete"), (n!"fs.STFS.RemoveAll"), (n!"fs.STFS.Rename")].map Gen.fingerprintOf =
+    [some 263775495660498030, some 621564509989880546, some 909123977399108449, some 637712002952537686, some 615787276878741348] := by decide
+-- MIRRORS-END
 
 end Stfs.C12
